@@ -396,6 +396,7 @@ func (radius *RADIUS) DecodeFromBytes(data []byte, df gopacket.DecodeFeedback) e
 	}
 
 	radius.BaseLayer = BaseLayer{Contents: data}
+	radius.Attributes = radius.Attributes[:0]
 
 	radius.Code = RADIUSCode(data[0])
 	radius.Identifier = RADIUSIdentifier(data[1])
